@@ -284,6 +284,10 @@ class State:
         self.unsure = False   # a feasibility query came back unknown on this path
         self.assumed = []
         self.depth = 0
+        self.threads = {}      # tid -> suspended frame stack (cooperative threads: __v_thread_create / __v_switch)
+        self.cur_tid = 0
+        self.finished = set()
+        self.next_tid = 1
 
     def clone(self):
         s = State.__new__(State)
@@ -303,6 +307,10 @@ class State:
         s.unsure = self.unsure
         s.assumed = list(self.assumed)
         s.depth = self.depth
+        s.threads = dict((t, [f.clone() for f in fs]) for t, fs in self.threads.items())
+        s.cur_tid = self.cur_tid
+        s.finished = set(self.finished)
+        s.next_tid = self.next_tid
         s.exp_args = getattr(self, 'exp_args', ())
         s.exp_zero = getattr(self, 'exp_zero', 0)
         s.exp_conc = getattr(self, 'exp_conc', ())
@@ -1082,11 +1090,11 @@ class Engine:
 
     # main interpreter loop: returns list of forked states (to be scheduled) or None when the path ended
     def exec_path(self, st, until_depth=None):
-        frames = st.frames
         H = self.handlers
         max_steps = self.max_steps
         TAIL = self.tail
         while True:
+            frames = st.frames
             fr = frames[-1]
             ins = fr.block.instrs[fr.idx]
             st.steps += 1
@@ -1099,9 +1107,16 @@ class Engine:
                 fr.idx += 1
                 continue
             if r is RET:
+                frames = st.frames
                 if until_depth is not None and len(frames) == until_depth:
                     return None
                 if not frames:
+                    if st.cur_tid != 0:
+                        # a cooperative thread ran to completion: control goes back to the main thread
+                        st.finished.add(st.cur_tid)
+                        st.frames = st.threads.pop(0)
+                        st.cur_tid = 0
+                        continue
                     return None
                 continue
             if r is JUMP:
